@@ -216,7 +216,7 @@ def mk(e, cells):
     return e.new_slice(list(cells)) if len(cells) else e.new_slice([])
 
 
-def c06(ck, env, add, thorough, keys):
+def c06(ck, env, add, thorough, keys, wraps=()):
     """Seal through the arm64 glue + NEON leaves == SP 800-38D specification, data bytes GF(2)-affine symbolic"""
     note(ck)
     if thorough:
@@ -231,14 +231,23 @@ def c06(ck, env, add, thorough, keys):
                         [(12, pl, al, 16) for al in als for pl in (0, 37)] + [(nl, pl, 3, 16) for nl in nls for pl in (0, 17, 271)]))
     eng = env.engine()
     nq = [0]
+    # counter wrap: the nonces solved by the amd64 part (standard key; initial counter within 17 blocks of 2^32) x lengths that
+    # cross the wrap in every kernel width and in the tail
+    wrapcases = [(cn, pl) for (_t, cn) in wraps for pl in ((300, 17, 129) if not thorough else (16, 17, 33, 64, 129, 271, 300, 600))]
+    tuples = tuples + [('wrap', i) for i in range(len(wrapcases))]
 
     def run(e):
         out = []
-        for idx, (nl, pl, al, ts) in enumerate(tuples):
-            key = keys[idx % len(keys)]
+        for idx, tup in enumerate(tuples):
+            if tup[0] == 'wrap':
+                cn, pl = wrapcases[tup[1]]
+                nl, al, ts = len(cn), 3, 16
+            else:
+                nl, pl, al, ts = tup
+            key = keys[idx % len(keys)] if tup[0] != 'wrap' else STD_KEY
             asmsym.aff_reset()
             r2 = random.Random(ck.seed * 104729 + idx)
-            nonce = [r2.randrange(256) for _ in range(nl)]
+            nonce = [r2.randrange(256) for _ in range(nl)] if tup[0] != 'wrap' else list(cn)
             pt, _ = aff_data(r2, 'p', pl, 3)
             aad, _ = aff_data(r2, 'a', al, 2)
             label = 'arm64 nonce=%d pt=%d aad=%d tag=%d' % (nl, pl, al, ts)
@@ -502,7 +511,7 @@ def c10(ck, env, add, thorough):
     note(ck)
     eng = env.engine()
     shapes = ['nil', 'empty', 'exact', 'spare-enough', 'spare-large', 'spare-short', 'zero-len-cap', 'inplace']
-    pls = [0, 1, 16, 17, 64, 100] if not thorough else [0, 1, 15, 16, 17, 33, 64, 100, 129, 271]
+    pls = [0, 1, 16, 17, 64, 100, 129, 200, 271] if not thorough else [0, 1, 15, 16, 17, 33, 64, 100, 129, 200, 255, 256, 271, 300, 513]
 
     def dst_for(e, shape, need, pt_slice):
         pre = [0xA0 + i for i in range(5)]
